@@ -615,10 +615,9 @@ def resolve_strategy_inline_recurse(path, base, decisions):
                 }
 
             elif k == 'id':
-                cell[k] = {
-                    "local_id": lcell[k],
-                    "remote_id": rcell[k],
-                }
+                # A cell has one id and it is a string: keep the local one
+                # (or the only one, if just one side's notebook has ids)
+                cell[k] = lcell[k] if k in lcell else rcell[k]
 
             elif k == 'execution_count':
                 cell[k] = None  # Clear
